@@ -65,6 +65,7 @@ func verifyCmd(args []string) {
 			defer os.RemoveAll(dir)
 		}
 		vc.Solve(ex.Out, dir, *timeout, 16, false)
+		vc.PostProcess(ex.Out)
 		for _, o := range ex.Out.Obls {
 			fmt.Printf("%-10s %-8s %6.2fs %s\n", o.Status, o.Solver, o.TimeS, o.Name)
 			if o.Status != "discharged" {
